@@ -67,7 +67,7 @@ func paramDefault(p ParamSpec) any {
 	case "string":
 		return "dflt"
 	default:
-		return []any{5.0, 6.0}
+		return []any{5.0, 5.0, 6.0} // a repeated item: every one of them has to be written
 	}
 }
 
